@@ -37,6 +37,8 @@ class Runtime:
         self.sim = sim
         self.salt = salt
         self.pools: List["SimPool"] = []
+        self.n_tokens = 0
+        self.pools_by_tok: Dict[int, List["SimPool"]] = {}
         self.tok_by_task: Dict[Any, int] = {}
         self.tok_by_thread: Dict[int, int] = {}
         self.tok_op: Dict[int, Any] = {}
@@ -120,12 +122,23 @@ class SimPool(cf.Executor):
         self.max_workers = max_workers or 1
         self.items: List[dict] = []
         self.running = 0
-        self.token = len(rt.pools)
         rt.pools.append(self)
+        self.closed = False
         try:
             task = asyncio.current_task()
         except RuntimeError:
             task = None
+        # an execution token identifies one scheduler run; a second pool created by the same scheduler run (same task,
+        # earlier pool still open) joins that execution so that in-flight counts are per execution, not per pool
+        prev = rt.tok_by_task.get(task) if task is not None else rt.tok_by_thread.get(threading.get_ident())
+        if prev is not None and any(not q.closed for q in rt.pools_by_tok.get(prev, [])):
+            self.token = prev
+            joined = True
+        else:
+            self.token = rt.n_tokens
+            rt.n_tokens += 1
+            joined = False
+        rt.pools_by_tok.setdefault(self.token, []).append(self)
         if task is not None:
             rt.tok_by_task[task] = self.token
         else:
@@ -137,7 +150,11 @@ class SimPool(cf.Executor):
         except RuntimeError:
             loop = None
         self.loop_id = id(loop) if loop is not None else None
-        rt.sim.ev("exec_begin", self.token, CUR_OP.get(), self.max_workers, self.owner.name)
+        if joined:
+            rt.sim.ev("pool_joined", self.token, self.max_workers)
+            rt.probe("extra_pool_in_execution")
+        else:
+            rt.sim.ev("exec_begin", self.token, CUR_OP.get(), self.max_workers, self.owner.name)
 
     def submit(self, fn: Callable[..., Any], /, *a: Any, **k: Any) -> cf.Future:  # type: ignore[override]
         if self._real is not None:
@@ -149,7 +166,7 @@ class SimPool(cf.Executor):
         is_async = isinstance(fn, functools.partial)
         item = {"f": f, "started": False, "nid": nid}
         self.items.append(item)
-        unfinished = sum(1 for it in self.items if not it["f"].done())
+        unfinished = sum(1 for q in rt.pools_by_tok.get(self.token, [self]) for it in q.items if not it["f"].done())
         queued = sum(1 for it in self.items if not it["started"]) - 1
         if queued > 0:
             rt.probe("pool_queue_nonempty")
@@ -199,6 +216,7 @@ class SimPool(cf.Executor):
         if self._real is not None:
             return self._real.shutdown(wait, cancel_futures=cancel_futures)
         self.rt.sim.ev("exec_end", self.token)
+        self.closed = True
         if wait:
             self.rt.sim.yield_("pool-shutdown", pred=lambda: all(it["f"].done() for it in self.items),
                                info=("pool-shutdown", self.token))
